@@ -18,6 +18,9 @@ def main(argv=None):
 
     # children (spawned workers, baseline subprocesses) get a fixed hash seed
     os.environ["PYTHONHASHSEED"] = str(a.seed % 4294967295)
+    # one polars thread per process: the frames are tiny, the 16 worker processes already use every core, and a thread pool
+    # per worker only oversubscribes the machine (measured: the same check takes twice as long without this)
+    os.environ.setdefault("POLARS_MAX_THREADS", "1")
     here = os.path.dirname(os.path.dirname(os.path.abspath(__file__)))
     os.chdir(here)
     if here not in sys.path:
